@@ -1,8 +1,7 @@
-import re
 import itertools
 from enum import Enum
 
-from flamapy.core.models.ast import ASTOperation
+from flamapy.core.models.ast import ASTOperation, Node
 from flamapy.core.transformations import ModelToText
 from flamapy.metamodels.fm_metamodel.models import FeatureModel, Feature, Relation, Constraint
 
@@ -78,93 +77,91 @@ def get_relation_formula(relation: Relation) -> str:
     raise ValueError(f"Unknown relation type: {relation}")
 
 
+NOT = PLWriter.LogicConnective.NOT.value
+OR = PLWriter.LogicConnective.OR.value
+AND = PLWriter.LogicConnective.AND.value
+IMPLIES = PLWriter.LogicConnective.IMPLIES.value
+EQUIVALENCE = PLWriter.LogicConnective.EQUIVALENCE.value
+
+
 def get_mandatory_formula(relation: Relation) -> str:
     parent = relation.parent.name
     child = relation.children[0].name
-    return f'{parent} {PLWriter.LogicConnective.EQUIVALENCE} {child}'
+    return f'{parent} {EQUIVALENCE} {child}'
 
 
 def get_optional_formula(relation: Relation) -> str:
     parent = relation.parent.name
     child = relation.children[0].name
-    return f'{child} {PLWriter.LogicConnective.IMPLIES} {parent}'
+    return f'{child} {IMPLIES} {parent}'
 
 
 def get_or_formula(relation: Relation) -> str:
     parent = relation.parent.name
-    children = f" {PLWriter.LogicConnective.OR} ".join(child.name for child in relation.children)
-    return f'{parent} {PLWriter.LogicConnective.EQUIVALENCE} ({children})'
+    children = f" {OR} ".join(child.name for child in relation.children)
+    return f'{parent} {EQUIVALENCE} ({children})'
 
 
 def get_alternative_formula(relation: Relation) -> str:
     formula = []
     parent = relation.parent.name
-    children = {child.name for child in relation.children}
-    for child in children:
-        children_negatives = children - {child}
-        children_neg_str = [f"{PLWriter.LogicConnective.NOT}" + ch for ch in children_negatives]
-        formula.append(f'{child} {PLWriter.LogicConnective.EQUIVALENCE} '
-                       f'({f" {PLWriter.LogicConnective.AND} ".join(children_neg_str)} '
-                       f'{PLWriter.LogicConnective.AND} {parent})')
-    return f" {PLWriter.LogicConnective.AND} ".join(f'({f})' for f in formula)
+    children = [child.name for child in relation.children]
+    for i, child in enumerate(children):
+        others = [f'{NOT} {ch}' for j, ch in enumerate(children) if j != i]
+        formula.append(f'{child} {EQUIVALENCE} ({f" {AND} ".join(others + [parent])})')
+    return f" {AND} ".join(f'({f})' for f in formula)
 
 
 def get_mutex_formula(relation: Relation) -> str:
-    formula = []
-    parent = relation.parent.name
-    children = {child.name for child in relation.children}
-    for child in children:
-        children_negatives = children - {child}
-        children_neg_str = [f"{PLWriter.LogicConnective.NOT}" + cn for cn in children_negatives]
-        formula.append(f'{child} {PLWriter.LogicConnective.EQUIVALENCE} '
-                       f'({f" {PLWriter.LogicConnective.AND} ".join(children_neg_str)} '
-                       f'{PLWriter.LogicConnective.AND} {parent})')
-    formula_str = f" {PLWriter.LogicConnective.AND} ".join(f'({f})' for f in formula)
-    or_children = f" {PLWriter.LogicConnective.OR} ".join(child for child in children)
-    return f'({parent} {PLWriter.LogicConnective.EQUIVALENCE} ' \
-           f'{PLWriter.LogicConnective.NOT}({or_children})) ' \
-           f'{PLWriter.LogicConnective.OR} ({formula_str})'
+    return get_cardinality_formula(relation)
 
 
 def get_cardinality_formula(relation: Relation) -> str:
+    """Every child implies the parent, and the parent implies that the number of selected
+    children is within the cardinality (one conjunction per admissible combination)."""
     parent = relation.parent.name
-    children = {child.name for child in relation.children}
-    or_ctc = []
-    for k in range(relation.card_min, relation.card_max + 1):
-        combi_k = list(itertools.combinations(children, k))
-        for positives in combi_k:
-            negatives = children - set(positives)
-            negatives_str = [f"{PLWriter.LogicConnective.NOT}" + f for f in negatives]
-            positives_and_ctc = f'{f" {PLWriter.LogicConnective.AND} ".join(positives)}'
-            negatives_and_ctc = f'{f" {PLWriter.LogicConnective.AND} ".join(negatives_str)}'
-            if positives_and_ctc and negatives_and_ctc:
-                and_ctc = f'{positives_and_ctc} {PLWriter.LogicConnective.AND} {negatives_and_ctc}'
-            else:
-                and_ctc = f'{positives_and_ctc}{negatives_and_ctc}'
-            or_ctc.append(and_ctc)
-    formula_or_ctc = f'{f" {PLWriter.LogicConnective.OR} ".join(or_ctc)}'
-    return f'{parent} {PLWriter.LogicConnective.EQUIVALENCE} {formula_or_ctc}'
+    children = [child.name for child in relation.children]
+    card_max = len(children) if relation.card_max == -1 else relation.card_max
+    combinations = []
+    for k in range(relation.card_min, card_max + 1):
+        for positives in itertools.combinations(range(len(children)), k):
+            literals = [ch if i in positives else f'{NOT} {ch}' for i, ch in enumerate(children)]
+            combinations.append(f'({f" {AND} ".join(literals)})')
+    if not combinations:  # no admissible number of children: the parent cannot be selected
+        combinations.append(f'({parent} {AND} {NOT} {parent})')
+    children_imply_parent = f" {AND} ".join(f'({ch} {IMPLIES} {parent})' for ch in children)
+    return f'{children_imply_parent} {AND} ({parent} {IMPLIES} ({f" {OR} ".join(combinations)}))'
 
 
 def get_constraint_formula(ctc: Constraint) -> str:
-    constraint_str = ctc.ast.pretty_str()
-    constraint_str = re.sub(rf"\b{ASTOperation.XOR.value}\b",
-                            PLWriter.LogicConnective.XOR.value, constraint_str)
-    constraint_str = re.sub(rf"\b{ASTOperation.NOT.value}\b",
-                            PLWriter.LogicConnective.NOT.value, constraint_str)
-    constraint_str = re.sub(rf"\b{ASTOperation.AND.value}\b",
-                            PLWriter.LogicConnective.AND.value, constraint_str)
-    constraint_str = re.sub(rf"\b{ASTOperation.OR.value}\b",
-                            PLWriter.LogicConnective.OR.value, constraint_str)
-    constraint_str = re.sub(rf"\b{ASTOperation.IMPLIES.value}\b",
-                            PLWriter.LogicConnective.IMPLIES.value, constraint_str)
-    constraint_str = re.sub(rf"\b{ASTOperation.EQUIVALENCE.value}\b",
-                            PLWriter.LogicConnective.EQUIVALENCE.value, constraint_str)
-    constraint_str = re.sub(rf"\b{ASTOperation.REQUIRES.value}\b",
-                            PLWriter.LogicConnective.IMPLIES.value, constraint_str)
-    constraint_str = re.sub(
-        rf"\b{ASTOperation.EXCLUDES.value}\b",
-        f'{PLWriter.LogicConnective.IMPLIES.value} {PLWriter.LogicConnective.NOT.value}',
-        constraint_str
-    )
-    return constraint_str
+    return _node_formula(ctc.ast.root)
+
+
+def _operand_formula(node: Node) -> str:
+    formula = _node_formula(node)
+    return f'({formula})' if node.is_op() else formula
+
+
+def _node_formula(node: Node) -> str:
+    """The formula of a logical constraint, written from the syntax tree."""
+    if node.is_term():
+        return str(node.data)
+    if node.data == ASTOperation.NOT:
+        return f'{NOT} {_operand_formula(node.left)}'
+    left = _operand_formula(node.left)
+    right = _operand_formula(node.right)
+    if node.data == ASTOperation.AND:
+        result = f'{left} {AND} {right}'
+    elif node.data == ASTOperation.OR:
+        result = f'{left} {OR} {right}'
+    elif node.data in (ASTOperation.IMPLIES, ASTOperation.REQUIRES):
+        result = f'{left} {IMPLIES} {right}'
+    elif node.data == ASTOperation.EQUIVALENCE:
+        result = f'{left} {EQUIVALENCE} {right}'
+    elif node.data == ASTOperation.EXCLUDES:
+        result = f'{left} {IMPLIES} {NOT} {right}'
+    elif node.data == ASTOperation.XOR:
+        result = f'({left} {OR} {right}) {AND} {NOT} ({left} {AND} {right})'
+    else:
+        raise ValueError(f"Not a logical operator: {node.data}")
+    return result
